@@ -318,19 +318,24 @@ def limits_are_s3s_and_applied(ctx):
                any(norm(x) == f.params[1] for _, x in q.local_defs(f, v) if isinstance(x, ast.AST)), 'the two adjustments must be chained')
     c = ctx.func('utils.ChunksizeAdjuster._adjust_for_chunksize_limits')
     p = c.params[1]
-    rets = [(x, q.guard_texts(x)) for x in own_nodes(c.node) if isinstance(x, ast.Return)]
-    shape = sorted((norm(x.value), tuple(gs)) for x, gs in rets)
-    want = sorted([('self.max_size', ((f'{p} > self.max_size', True),)),
-                   ('self.min_size', ((f'{p} > self.max_size', False), (f'{p} < self.min_size', True))),
-                   (p, ((f'{p} > self.max_size', False), (f'{p} < self.min_size', False)))])
-    ctx.ob(c, 'clamp: > max -> max; < min -> min; else unchanged', shape == want, f'{shape}')
+    rets = [x for x in own_nodes(c.node) if isinstance(x, ast.Return)]
+    by = {}
+    for x in rets:
+        by.setdefault(norm(x.value), []).append(x)
+    def cond(x):
+        return ' and '.join(('' if pol else 'not ') + f'({norm(e)})' for e, pol in q.guards(x)) or 'True'
+    ok = set(by) == {'self.max_size', 'self.min_size', p} and all(len(v) == 1 for v in by.values()) \
+        and q.equivalent(cond(by['self.max_size'][0]), f'{p} > self.max_size') \
+        and q.equivalent(cond(by['self.min_size'][0]), f'not ({p} > self.max_size) and {p} < self.min_size') \
+        and q.equivalent(cond(by[p][0]), f'not ({p} > self.max_size) and not ({p} < self.min_size)')
+    ctx.ob(c, 'clamp: > max -> max; < min -> min; else unchanged', ok, f'{[(norm(x.value), q.guard_texts(x)) for x in rets]}')
     m = ctx.func('utils.ChunksizeAdjuster._adjust_for_max_parts')
     loops = [x for x in own_nodes(m.node) if isinstance(x, ast.While)]
     rets = [norm(x.value) for x in own_nodes(m.node) if isinstance(x, ast.Return)]
     cv = rets[0] if len(rets) == 1 else None  # the chunk size being adjusted is what is returned
     npn = _np_names(m)
     nv = npn[0] if npn else None
-    ok = len(loops) == 1 and cv is not None and nv is not None and norm(loops[0].test) == f'{nv} > self.max_parts' and \
+    ok = len(loops) == 1 and cv is not None and nv is not None and q.equivalent(loops[0].test, f'{nv} > self.max_parts') and \
         any(isinstance(x, ast.AugAssign) and isinstance(x.op, ast.Mult) and norm(x.value) == '2' and norm(x.target) == cv for x in loops[0].body) and \
         any(isinstance(x, ast.Assign) and norm(x.targets[0]) == nv and _num_parts_expr_ok(x.value, m.params[2], cv) for x in loops[0].body) and \
         any(_num_parts_expr_ok(v, m.params[2], cv) for st, v in q.local_defs(m, nv) if isinstance(v, ast.AST) and q.in_loop(st) is None) and \
